@@ -205,8 +205,10 @@ CHECKS = {
                         "interleavings of Close with the loop are reached by volume and generated delays, not enumerated"],
         "min_classes": {"quick": {"C09/association-ended-then-more": 60, "C09/idle-overlay-active": 50, "C09/client-addresses/unixgram": 15, "C09/late-datagrams-for-ended-associations-while-the-loop-was-held": 100}},
         "runs": [
-            {"name": "demux", "pkg": "./c09", "run": ".", "rapid_checks": {"quick": 30, "thorough": 1500}, "rapid_steps": {"quick": 25, "thorough": 40},
+            {"name": "demux", "pkg": "./c09", "run": "TestDemux", "rapid_checks": {"quick": 30, "thorough": 1500}, "rapid_steps": {"quick": 25, "thorough": 40},
              "shards": {"quick": 6, "thorough": 16}, "timeout": {"quick": 600, "thorough": 7200}},
+            {"name": "idle-expiry-under-load", "pkg": "./c09", "run": "TestIdleExpiryWhileNotificationsPile", "rapid_checks": {"quick": 10, "thorough": 300},
+             "shards": {"quick": 4, "thorough": 16}, "timeout": {"quick": 600, "thorough": 7200}},
         ],
     },
     "C13": {
